@@ -108,6 +108,8 @@ class PriceLimitRule(EventABC):
         return order_price
 
     def hooked_before_order(self, simulator: Simulator, order: Order) -> None:
+        if simulator.id2market[order.market_id] not in self.target_markets.values():
+            return
         new_price: Optional[float] = self.get_limited_price(
             order, simulator.id2market[order.market_id]
         )
